@@ -2,7 +2,7 @@
    Q(i) (iterated multiplication, inverse for negative exponents), for every exponent the code
    accepts (|e| < 2^64 for Integer/Rational/purely imaginary bases, |e| < 2^63 otherwise; beyond
    that the model, like the code, throws) and every base that is nonzero when e < 0
-   (0 ** negative: see C05_div_by_exact_zero / pow_zero_negative_refuted). *)
+   (0 ** negative = zoo is C05_pow_zero_negative in P_div_by_exact_zero.v). *)
 From SE Require Import Num.NumModel Num.NumSpec Num.NumC05.
 Local Open Scope Z_scope.
 Theorem C05_num_powint_correct :
